@@ -81,8 +81,36 @@ def newIter : Op Int Int → Option Nat
   | .first i | .last i | .seek i _ => some i
   | _ => none
 
-/-- run `op` on state `id`; print model and reference observations -/
-def runOn (s : S) (id : Nat) (op : Op Int Int) (impl : String) : S × String × String :=
+/-- run `ops` one after the other through `stepf`; the results, last first -/
+def foldOps (stepf : σ → Op Int Int → σ × Out Int Int) (st : σ) (ops : List (Op Int Int)) : σ × List (Out Int Int) :=
+  ops.foldl (fun (acc : σ × List (Out Int Int)) op => let (st', o) := stepf acc.1 op; (st', o :: acc.2)) (st, [])
+
+def isPanic : Out Int Int → Bool
+  | .panic => true
+  | _ => false
+
+/-- the bulk lines of the large cases: `setn m k0,d,n,v0` is the `n` calls `Set(k0 + i*d, v0 + i)`,
+`deleten m k0,d,n` the `n` calls `Delete(k0 + i*d)`; the result is the string of their `T`/`F` results.  (The
+numbers are one token: the shrinker of tools/check.py drops tokens inside lines of more than five.) -/
+def parseBulk : List String → Option (Nat × List (Op Int Int))
+  | ["setn", m, a] =>
+    match a.splitOn "," with
+    | [k0, d, n, v0] => do
+      let k0 ← k0.toInt?; let d ← d.toInt?; let v0 ← v0.toInt?
+      some (← m.toNat?, (List.range (← n.toNat?)).map fun (i : Nat) => .set (k0 + Int.ofNat i * d) (v0 + Int.ofNat i))
+    | _ => none
+  | ["deleten", m, a] =>
+    match a.splitOn "," with
+    | [k0, d, n] => do
+      let k0 ← k0.toInt?; let d ← d.toInt?
+      some (← m.toNat?, (List.range (← n.toNat?)).map fun (i : Nat) => .delete (k0 + Int.ofNat i * d))
+    | _ => none
+  | _ => none
+
+/-- run `pre` (the single steps of a bulk line; empty otherwise) and then `op` on state `id` — all through the
+`step` functions; print model and reference observations.  For a bulk line `op` is `.len` and the result shown is
+the string of the results of `pre`. -/
+def runOn (s : S) (id : Nat) (op : Op Int Int) (impl : String) (pre : List (Op Int Int) := []) : S × String × String :=
   let cmp := cmpOf s.mode
   match s.ms.get id, s.ss.get id with
   | some ms, some ss =>
@@ -101,8 +129,14 @@ def runOn (s : S) (id : Nat) (op : Op Int Int) (impl : String) : S × String × 
           else s
         | none => { s with owner := s.owner.set i id }
       | none => s
+    let (ms, pm) := foldOps (Omap.step cmp) ms pre
+    let (ss, ps) := foldOps (AssocRef.step cmp) ss pre
     let (ms', mo) := Omap.step cmp ms op
     let (ss', so) := AssocRef.step cmp ss op
+    let mo := if pm.any isPanic then .panic else mo
+    let so := if ps.any isPanic then .panic else so
+    let resOf (outs : List (Out Int Int)) (o : Out Int Int) : String :=
+      if pre.isEmpty then fmtOut o else String.join (outs.reverse.map fmtOut)
     let s' := { s with ms := s.ms.set id ms', ss := s.ss.set id ss' }
     let k := probeKey op
     let allOf (get : Nat → Op Int Int → String) : String :=
@@ -117,11 +151,11 @@ def runOn (s : S) (id : Nat) (op : Op Int Int) (impl : String) : S × String × 
     let mobs := match mo with
       | .panic => "panic:nil"
       | .noreg => "r=noreg"
-      | _ => obsState (mq id) (ms'.its.map (·.1)) (fmtOut mo) ++ ";all=" ++ allOf mq
+      | _ => obsState (mq id) (ms'.its.map (·.1)) (resOf pm mo) ++ ";all=" ++ allOf mq
     let sobs := match so with
       | .panic => "panic:nil"
       | .noreg => "r=noreg"
-      | _ => obsState (sq id) (ss'.its.map (·.1)) (fmtOut so) ++ ";all=" ++ allOf sq
+      | _ => obsState (sq id) (ss'.its.map (·.1)) (resOf ps so) ++ ";all=" ++ allOf sq
     (s', mobs, verdict (sobs == impl) s!"spec: {sobs}")
   | _, _ => (s, "r=nomap", verdict (impl == "r=nomap") "no such map")
 
@@ -153,6 +187,12 @@ def step (s : S) (toks : List String) (impl : String) : S × String × String :=
       | some id => runOn s id op impl
       | none => (s, "r=nomap", verdict (impl == "r=nomap") "no such map")
     | none =>
+      match parseBulk toks with
+      | some (m, ops) =>
+        match s.alias.get m with
+        | some id => runOn s id .len impl ops
+        | none => (s, "r=nomap", verdict (impl == "r=nomap") "no such map")
+      | none =>
       match parseItOp toks with
       | some (i, op) =>
         match s.owner.get i with
